@@ -7,6 +7,7 @@ A contract body is ordinary Python written against the `Ctx` API.  The same body
     counterexample on the real, unmodified function) or from an explicit grid (bounded stand-in).
 """
 import importlib
+import os
 import math
 import traceback
 
@@ -337,6 +338,21 @@ class _RealWorld:
     def cls(self, ref):
         return self.fn(ref)
 
+    def obj(self, ref, **attrs):
+        """an instance of the real class with the given attributes, __init__ not run (the counterpart of World.obj)"""
+        real = self.fn(ref)
+        o = real.__new__(real)
+        for k, v in attrs.items():
+            object.__setattr__(o, k, v)
+        return o
+
+    def new(self, ref, *a, **k):
+        return self.fn(ref)(*a, **k)
+
+    @property
+    def np(self):
+        return np
+
 
 # --------------------------------------------------------------------------------------------
 # drivers
@@ -413,7 +429,13 @@ def run_concrete(cdef, assign):
     except sym.PathEnd:
         return "skip", [], c
     except Exception as e:
-        c.failures.append(f"exception:{type(e).__name__}:{e}")
+        # where was it raised: in the code under verification, or in the harness / contract (not a reproduction of anything)
+        tb, origin = e.__traceback__, ""
+        while tb is not None:
+            origin = tb.tb_frame.f_code.co_filename
+            tb = tb.tb_next
+        c.exc_in_repo = os.path.realpath(origin).startswith(os.path.realpath(os.environ.get("BEYOND_REPO", "/repo")) + os.sep)
+        c.failures.append(f"exception:{type(e).__name__}:{e}" + ("" if c.exc_in_repo else " [raised in the harness]"))
         return "error", c.failures, c
     return ("fail" if c.failures else "ok"), c.failures, c
 
